@@ -78,6 +78,12 @@ class RawPeer:
         else:
             link.queues[self.side].put_nowait(bytes(body))
 
+    def send_msg(self, kind, data):
+        """Glue links only: a websocket message that is not a binary one ('text' with a str, 'ping' / 'pong')."""
+        self.sent.append((self._now(), {'type': 'WS-' + kind.upper(), 'raw': data}))
+        if not self.link.broken:
+            self.link.queues[self.side].put_nowait((kind, data))
+
     def send_bytes(self, data):
         """ByteLink only: arbitrary bytes, not necessarily record aligned."""
         self.sent.append((self._now(), {'type': 'BYTES', 'raw': bytes(data)}))
